@@ -1497,4 +1497,49 @@ pub proof fn lemma_free_head(fc: Map<usize, Decimal>, txs: Seq<GbpTransaction>, 
     isum_zero(lo, f_free_on(fc, txs, x, t));
 }
 
+
+// ---------- L3 corollaries over the proved characterisations (relational statements about the quantities Matcher::process is proved to return) ----------
+// Matcher::process is proved to return, for every (date x, security t) of the caller's list L:
+//     total leg quantity     == day_sells(L, x, t)                                   (C02.leg_sum.total)
+//     Same Day leg quantity  == rmin(day_sells(L, x, t), day_buys(L, x, t))           (C01.sameday_first)
+// The lemmas below show that these two figures are unchanged by the transformations of C06, C09 and C12.
+
+/// C06 (line order, file split): a permutation of the lines leaves both figures unchanged
+pub proof fn lemma_l3_permutation(a: Seq<GbpTransaction>, b: Seq<GbpTransaction>, x: int, t: Seq<char>)
+    requires a.to_multiset() == b.to_multiset()
+    ensures day_sells(a, x, t) == day_sells(b, x, t), rmin(day_sells(a, x, t), day_buys(a, x, t)) == rmin(day_sells(b, x, t), day_buys(b, x, t))
+{
+    rsum_multiset(a, b, f_sell_on(x, t)); rsum_multiset(a, b, f_buy_on(x, t));
+}
+/// C12 (later transactions): appending lines dated after day x leaves both figures of day x unchanged
+pub proof fn lemma_l3_append_later(a: Seq<GbpTransaction>, more: Seq<GbpTransaction>, x: int, t: Seq<char>)
+    requires forall|k: int| 0 <= k < more.len() ==> (#[trigger] more[k]).date.d() > x
+    ensures day_sells(a + more, x, t) == day_sells(a, x, t), day_buys(a + more, x, t) == day_buys(a, x, t)
+{
+    rsum_concat(a, more, f_sell_on(x, t)); rsum_concat(a, more, f_buy_on(x, t));
+    assert forall|k: int| 0 <= k < more.len() implies f_sell_on(x, t)(#[trigger] more[k]) == 0real by {}
+    rsum_zero(more, f_sell_on(x, t));
+    assert forall|k: int| 0 <= k < more.len() implies f_buy_on(x, t)(#[trigger] more[k]) == 0real by {}
+    rsum_zero(more, f_buy_on(x, t));
+}
+/// C09 (other securities): inserting or removing a line of another security leaves both figures of t unchanged
+pub proof fn lemma_l3_other_security(a: Seq<GbpTransaction>, j: int, x: int, t: Seq<char>)
+    requires 0 <= j < a.len(), a[j].ticker@ != t
+    ensures day_sells(a.remove(j), x, t) == day_sells(a, x, t), day_buys(a.remove(j), x, t) == day_buys(a, x, t)
+{
+    rsum_remove(a, j, f_sell_on(x, t)); rsum_remove(a, j, f_buy_on(x, t));
+}
+/// C06 (fill splitting): recording one purchase or sale as two fills on the same day leaves both figures unchanged
+pub proof fn lemma_l3_fill_split(a: Seq<GbpTransaction>, j: int, p1: GbpTransaction, p2: GbpTransaction, x: int, t: Seq<char>)
+    requires 0 <= j < a.len(), on_key(p1, a[j].date.d(), a[j].ticker@), on_key(p2, a[j].date.d(), a[j].ticker@),
+        (a[j].operation is Sell && p1.operation is Sell && p2.operation is Sell && sell_qty(p1) + sell_qty(p2) == sell_qty(a[j]))
+        || (a[j].operation is Buy && p1.operation is Buy && p2.operation is Buy && buy_qty(p1) + buy_qty(p2) == buy_qty(a[j]))
+    ensures day_sells(a.remove(j).push(p1).push(p2), x, t) == day_sells(a, x, t), day_buys(a.remove(j).push(p1).push(p2), x, t) == day_buys(a, x, t)
+{
+    let r = a.remove(j);
+    rsum_remove(a, j, f_sell_on(x, t)); rsum_remove(a, j, f_buy_on(x, t));
+    rsum_push(r, p1, f_sell_on(x, t)); rsum_push(r.push(p1), p2, f_sell_on(x, t));
+    rsum_push(r, p1, f_buy_on(x, t)); rsum_push(r.push(p1), p2, f_buy_on(x, t));
+}
+
 } // verus!
